@@ -26,6 +26,7 @@ type Engine struct {
 
 	classSorts map[string]Sort
 	classKinds map[string]LeafKind
+	initAxioms map[string]*Term
 	strIDs     map[string]int64
 	typeTags   map[string]int64
 	tagTypes   map[int64]types.Type
@@ -37,6 +38,7 @@ type Engine struct {
 	entryAlloc  *Term
 	copies      []copyRec
 	viewOrigins map[int]viewOrigin
+	initPkg   string
 	cur       *FuncResult
 	logOff    int
 	cellCtr   int
@@ -119,7 +121,7 @@ func Load(dir string, patterns []string, opts Options) (*Engine, error) {
 	prog, _ := ssautil.AllPackages(pkgs, ssa.NaiveForm|ssa.InstantiateGenerics)
 	prog.Build()
 	e := &Engine{tb: NewTB(), Prog: prog, Pkgs: map[string]*packages.Package{}, SSAPkgs: map[string]*ssa.Package{},
-		Specs: NewSpecSet(), classSorts: map[string]Sort{}, classKinds: map[string]LeafKind{}, strIDs: map[string]int64{"": 0}, typeTags: map[string]int64{}, tagTypes: map[int64]types.Type{},
+		Specs: NewSpecSet(), classSorts: map[string]Sort{}, classKinds: map[string]LeafKind{}, initAxioms: map[string]*Term{}, strIDs: map[string]int64{"": 0}, typeTags: map[string]int64{}, tagTypes: map[int64]types.Type{},
 		viewOrigins: map[int]viewOrigin{}, loops: map[*ssa.Function]*funcLoops{}, funcByKey: map[string]*ssa.Function{}, Assumed: map[string]bool{}, Opts: opts}
 	if e.Opts.MaxPaths == 0 {
 		e.Opts.MaxPaths = 4000
